@@ -286,3 +286,24 @@ def generate(seed, tier, family=None, n=None, pcap=None):
     rng = random.Random(seed * 15485863 + 11)
     n = n or (400 if tier == "quick" else 12000)
     return [scenario(rng, "%s%d" % ((family or "m")[0], i), family, pcap) for i in range(n)]
+
+
+def default_config_variant(scn):
+    """the same program on `sim::default_config` (one unlimited 30 ms network queue, a 200 kB/s-out /
+    800 kB/s-in modem pair per address, MTU 1475, only `localhost` resolves): every hop / route / mtu /
+    dns declaration is replaced by `config default`. No probes: the trace shows API results and
+    completions with their times only."""
+    lines = scn.split("\n")
+    out = [lines[0].replace("== ", "== dc_", 1), "config default"]
+    for ln in lines[1:]:
+        t = ln.split()
+        if t and t[0] in ("hop", "route", "mtu", "dns"): continue
+        out.append(ln)
+    return "\n".join(out)
+
+
+def generate_default_config(seed, tier, n=None):
+    rng = random.Random(seed * 32452843 + 5)
+    n = n or (60 if tier == "quick" else 1500)
+    fams = ["tcp", "tcp_heavy", "udp", "mixed"]
+    return [default_config_variant(scenario(rng, "%s%d" % (fams[i % 4][0], i), fams[i % 4], None)) for i in range(n)]
